@@ -135,6 +135,69 @@ Theorem C18_event_id_carried : forall qtver eid m, look k_event_id (src_event_me
 Proof. exact (ev_event_id _ _). Qed.
 Print Assumptions C18_event_id_carried.
 
+(* ---- attributes that reach the message through the handlers of a pipeline (attribute handlers, overrides) ---- *)
+(* the attribute store after each kind of step: setAttribute / updateAttributes (what AttrHandler::process does with
+   the hash a FunctionAttrHandler returns) REPLACE the value of a name, setAttributes replaces the store (a scoped
+   pipeline restoring the attributes), removeAttribute drops the name; every other name keeps its value *)
+Theorem C18_attribute_store_semantics : forall a k,
+  (forall k' v, look_last k (apply_op a (OSet k' v)) = if seqb k k' then Some v else look_last k a)
+  /\ (forall h, look_last k (apply_op a (OUpdate h)) = match look_last k h with Some v => Some v | None => look_last k a end)
+  /\ (forall l, look_last k (apply_op a (OSetAll l)) = look_last k l)
+  /\ (forall k', look_last k (apply_op a (ORemove k')) = if seqb k k' then None else look_last k a).
+Proof.
+  exact (fun a k => conj (fun k' v => store_set k' v a k) (conj (fun h => store_update h a k)
+                   (conj (fun l => store_set_all l a k) (fun k' => store_remove k' a k)))).
+Qed.
+Print Assumptions C18_attribute_store_semantics.
+(* whatever steps produced the store, the event carries for every name exactly its CURRENT value, once *)
+Theorem C18_current_value_conserved : forall qtver eid m ops k v,
+  look_last k (apply_ops (s_attrs m) ops) = Some v ->
+  (is_routed k = false -> get2 (src_event_members qtver eid (with_ops m ops)) k_extra k = Some (sort_keys v))
+  /\ (forall sl name, In (sl, (name, k)) spec_routes ->
+        slot_get (src_event_members qtver eid (with_ops m ops)) sl name = Some (JStr (to_qstring v))
+        /\ get2 (src_event_members qtver eid (with_ops m ops)) k_extra k = None).
+Proof. exact (fun qtver eid m ops k v => current_value_conserved _ _ qtver eid (with_ops m ops) k v). Qed.
+Print Assumptions C18_current_value_conserved.
+(* a name that is no longer on the message does not show up under extra *)
+Theorem C18_absent_name_not_in_extra : forall qtver eid m ops k,
+  look_last k (apply_ops (s_attrs m) ops) = None -> k <> k_line -> k <> k_file -> k <> k_thread_id ->
+  get2 (src_event_members qtver eid (with_ops m ops)) k_extra k = None.
+Proof. exact (fun qtver eid m ops k => absent_name_not_in_extra _ _ qtver eid (with_ops m ops) k). Qed.
+Print Assumptions C18_absent_name_not_in_extra.
+(* the attribute handler that runs last before the formatter OVERRIDES: for each name of its hash the event carries
+   the handler's value and not an older one - whether the older one came from setAttribute, from an earlier handler
+   of the same pipeline or from a handler of the enclosing pipeline - and the other names keep theirs *)
+Theorem C18_handler_override_conserved : forall qtver eid m ops h k v, look_last k h = Some v ->
+  (is_routed k = false -> get2 (src_event_members qtver eid (with_ops m (ops ++ [OUpdate h]))) k_extra k = Some (sort_keys v))
+  /\ (forall sl name, In (sl, (name, k)) spec_routes ->
+        slot_get (src_event_members qtver eid (with_ops m (ops ++ [OUpdate h]))) sl name = Some (JStr (to_qstring v))
+        /\ get2 (src_event_members qtver eid (with_ops m (ops ++ [OUpdate h]))) k_extra k = None).
+Proof. exact (handler_override _ _). Qed.
+Print Assumptions C18_handler_override_conserved.
+Theorem C18_handler_keeps_other_names : forall m ops h k, look_last k h = None ->
+  look_last k (s_attrs (with_ops m (ops ++ [OUpdate h]))) = look_last k (s_attrs (with_ops m ops)).
+Proof. exact handler_keeps_other. Qed.
+Print Assumptions C18_handler_keeps_other_names.
+
+(* ---- ids over a whole run with several formatter objects ---- *)
+(* the k-th format() call of the process takes the k-th draw of the process-wide source, on whichever formatter
+   object ([objs]) it is made: with distinct draws ALL ids of the run are well-formed and pairwise distinct *)
+Theorem C18_ids_distinct_over_all_formatters : forall draw objs,
+  (forall i, draw i < 2 ^ 128) -> (forall i j, draw i = draw j -> i = j) ->
+  ids_ok_b (run_ids draw objs) = true /\ length (run_ids draw objs) = length objs.
+Proof. exact run_ids_ok. Qed.
+Print Assumptions C18_ids_distinct_over_all_formatters.
+Theorem C18_ids_oracle_sound : forall ids, ids_ok_b ids = true -> NoDup ids /\ forallb is_hex32 ids = true.
+Proof.
+  exact (fun ids H => conj (strs_distinctb_sound ids (proj2 (proj1 (andb_true_iff _ _) H))) (proj1 (proj1 (andb_true_iff _ _) H))).
+Qed.
+Print Assumptions C18_ids_oracle_sound.
+(* for contrast: a per-process base plus a counter kept by each formatter object repeats ids as soon as two objects
+   have formatted one event each (the oracle rejects such a run) *)
+Theorem C18_per_object_counter_ids_repeat : forall base o1 o2, o1 <> o2 -> ids_ok_b (counter_ids base [o1; o2]) = false.
+Proof. exact counter_ids_repeat. Qed.
+Print Assumptions C18_per_object_counter_ids_repeat.
+
 (* the boolean oracle the check evaluates on the implementation's output holds of the model's output *)
 Theorem C18_oracle_holds : forall qtver eid m, units qtver -> units eid -> wf_msg (s_msg m) -> time_ok (s_time_ms m) ->
   routed_scalar (s_attrs m) = true ->
@@ -170,4 +233,28 @@ Example C18_numeric_nonvacuous :
   /\ get2 (src_event_members [53] (id128_hex 1) ex_num_smsg) k_extra [100] = Some (JNum 9007199254740992%Z)
   /\ slot_get (src_event_members [53] (id128_hex 1) ex_num_smsg) STag k_app_name = Some (JStr [50;49;52;55;52;56;51;54;52;56])
   /\ prop_c18_b ex_num_smsg (sentry_format src_sentry_cfg [53] (id128_hex 1) ex_num_smsg) = true.
+Proof. vm_compute. repeat split. Qed.
+(* non-vacuity of the handler steps: "user" and "appname" set on the message, overridden by a handler of the root
+   pipeline and again by a handler of the nested pipeline; "tmp" removed: the event carries the LAST values only *)
+Definition ex_ops : list attr_op :=
+  [OUpdate [([117], JStr [98]); (k_appname, JStr [120])]; OSet [116] (JNum 1%Z);
+   OUpdate [([117], JStr [99]); (k_appname, JStr [121])]; ORemove [116]].
+Definition ex_ops_smsg : smsg := {|
+  s_msg := {| mtype := 4; mtext := [104; 233]; mfmt := None; mfile := None; mfunc := None; mcat := None;
+              mline := 1%Z; mtime := []; mtid := 1%Z; mattrs := [([117], JStr [97]); (k_appname, JStr [119])] |};
+  s_time_ms := 1000%Z |}.
+Example C18_handler_steps_nonvacuous :
+  s_attrs (with_ops ex_ops_smsg ex_ops)
+  = [([117], JStr [97]); (k_appname, JStr [119]); ([117], JStr [98]); (k_appname, JStr [120]); ([117], JStr [99]); (k_appname, JStr [121])]
+  /\ look_last [117] (s_attrs (with_ops ex_ops_smsg ex_ops)) = Some (JStr [99])
+  /\ get2 (src_event_members [53] (id128_hex 7) (with_ops ex_ops_smsg ex_ops)) k_extra [117] = Some (JStr [99])
+  /\ slot_get (src_event_members [53] (id128_hex 7) (with_ops ex_ops_smsg ex_ops)) STag k_app_name = Some (JStr [121])
+  /\ get2 (src_event_members [53] (id128_hex 7) (with_ops ex_ops_smsg ex_ops)) k_extra [116] = None
+  /\ prop_c18_b (with_ops ex_ops_smsg ex_ops) (sentry_format src_sentry_cfg [53] (id128_hex 7) (with_ops ex_ops_smsg ex_ops)) = true.
+Proof. vm_compute. repeat split. Qed.
+Example C18_run_ids_nonvacuous :
+  ids_ok_b (run_ids (fun k => N.of_nat k * 4294967296 + 5) [0; 1; 0; 2; 1]%nat) = true
+  /\ length (run_ids (fun k => N.of_nat k * 4294967296 + 5) [0; 1; 0; 2; 1]%nat) = 5%nat
+  /\ ids_ok_b (counter_ids 5 [0; 1; 0; 2; 1]%nat) = false
+  /\ ids_ok_b (counter_ids 5 [0; 0; 0]%nat) = true.
 Proof. vm_compute. repeat split. Qed.
